@@ -12,6 +12,31 @@ static double bad(int kind) { return kind == 0 ? std::nan("") : kind == 1 ? INFI
 static const int kArgs[6] = {3, 1, 3, 4, 1, 5};
 // Revolve(+inf) is clamped to a full revolution by design (revolveDegrees > 360 -> 360): a usable result
 static bool acceptable_usable(int ctor, int arg, int kind) { return ctor == 4 && kind == 1; }
+// input_nonfinite: v = case, kind   -- a non-finite number inside a polygon / produced by a warp callback
+//   case 0 Extrude polygon x, 1 Extrude polygon y, 2 Revolve polygon x, 3 Revolve polygon y, 4 Warp x, 5 Warp y, 6 Warp z
+static std::string input_nonfinite(int c, int kind) {
+  const double b = bad(kind);
+  Polygons a = {{{0, 0}, {1, 0}, {1, 1}, {0, 1}}};
+  Polygons r = {{{1, 0}, {2, 0}, {2, 1}, {1, 1}}};
+  Manifold m;
+  switch (c) {
+    case 0: a[0][2].x = b; m = Manifold::Extrude(a, 1); break;
+    case 1: a[0][2].y = b; m = Manifold::Extrude(a, 1); break;
+    case 2: r[0][2].x = b; m = Manifold::Revolve(r, 8); break;
+    case 3: r[0][2].y = b; m = Manifold::Revolve(r, 8); break;
+    default: { const int ax = c - 4; m = Manifold::Cube().Warp([ax, b](vec3& v) { if (v.x > 0.5) v[ax] = b; }); }
+  }
+  auto st = m.Status();
+  MeshGL64 g = m.GetMeshGL64();
+  const size_t nv = g.NumVert();
+  for (auto i : g.triVerts) if (i >= nv) return "a triangle references vertex " + std::to_string(i) + " of " + std::to_string(nv);
+  for (double v : g.vertProperties) if (!std::isfinite(v)) return "Status " + std::to_string((int)st) + " with a non-finite coordinate in the result";
+  // Revolve uses "only the part on the positive X side": a vertex whose x is NaN or -inf is not on that side and is
+  // clipped away like any x < 0 vertex; the finite, index-valid solid that remains is a usable result
+  if (c == 2 && st == Manifold::Error::NoError && !m.IsEmpty()) return "";
+  if (st == Manifold::Error::NoError) return std::string("non-finite input gave Status NoError (") + (m.IsEmpty() ? "empty-but-valid)" : "non-empty)");
+  return m.IsEmpty() ? "" : "error status but not empty";
+}
 // revolve_angle: v = angle in millidegrees
 static std::string revolve_angle(long md) {
   Polygons sq2 = {{{1, 0}, {2, 0}, {2, 1}, {1, 1}}};
@@ -61,6 +86,15 @@ static std::string one(int ctor, int arg, int kind) {
 
 int main(int argc, char** argv) {
   const char* mode = argc > 1 ? argv[1] : "smoke";
+  if (!strcmp(mode, "run") && argc > 2 && !strcmp(argv[2], "input_nonfinite")) {
+    auto in = parse_nums(argc > 3 ? argv[3] : "");
+    while (in.size() < 2) in.push_back(0);
+    report_current("input_nonfinite", in);
+    auto s = input_nonfinite((int)in[0], (int)in[1]);
+    if (!s.empty()) { report_fail("input_nonfinite", in, s); return 1; }
+    report_summary(1, "input_nonfinite");
+    return 0;
+  }
   if (!strcmp(mode, "run") && argc > 2 && !strcmp(argv[2], "revolve_angle")) {
     auto in = parse_nums(argc > 3 ? argv[3] : "");
     while (in.size() < 1) in.push_back(0);
@@ -96,6 +130,14 @@ int main(int argc, char** argv) {
     ++runs;
     if (!s.empty()) { report_fail("revolve_angle", in, s); ++badn; }
   }
-  report_summary(runs, "ctor_nonfinite_arg,revolve_angle");
+  for (int c = 0; c < 7; ++c)
+    for (int k = 0; k < 3; ++k) {
+      std::vector<long long> in = {c, k};
+      report_current("input_nonfinite", in);
+      auto s = input_nonfinite(c, k);
+      ++runs;
+      if (!s.empty()) { report_fail("input_nonfinite", in, s); ++badn; }
+    }
+  report_summary(runs, "ctor_nonfinite_arg,revolve_angle,input_nonfinite");
   return badn ? 1 : 0;
 }
